@@ -4,6 +4,10 @@ import json, os
 HERE = os.path.dirname(os.path.dirname(os.path.abspath(__file__)))
 
 CHECKS = {
+ 'C07': dict(level='exploration', ref='3/C07',
+   technique='seeded call histories folded by an executable model of the operative record (rule A8), text read back through gin\'s own parser, then replay of the whole history from that text in a reset twin world',
+   text='Each run binds literals, evaluated references, macros and non-literal objects (Tok, inf, nan, IntEnum), then calls consumers in any scopes with any caller-supplied / omitted / REQUIRED mix (some bodies raise); the operative text must list exactly the called (scope, configurable) sections and exactly the representable Gin-supplied parameters with their latest values (macros as definitions), and - for a static configuration with only representable values - parsing it in a reset world and repeating the calls must give every call the same arguments and reproduce the text.',
+   note='Replay is only demanded when all binds precede all calls (the shape the property promises); representable-then-non-representable sequences for one parameter are not generated (DESIGN 3/C07 exclusion).'),
  'C01': dict(level='exploration', ref='3/C01',
    technique='seeded bind/call/observe histories against an executable reference model (prefix overlay + caller-wins rule), with calls of an epoch issued from 2-3 simulated threads under a seeded scheduler',
    text='Each run generates probes of every callable shape (function, class via __init__/__new__, method; positional, defaulted, keyword-only, *args, **kwargs; all three registration APIs), a bind history over scopes named so that one is a textual prefix of another, and calls with every split of parameters into positional / keyword / omitted reached directly, through get_configurable (object, name, scoped name) or instantiation; the body\'s recorded arguments, caller-object identity and scope at entry are compared with the model at every call, get_bindings/query_parameter at every observation. Sampled histories; evidence, not proof.',
